@@ -167,7 +167,7 @@ def analyse_predicate(ctx, prog, chk, fn, kind):
                 rhs, old = sub[2], False
             elif sub[0] == "=" and ir.strip_casts(sub[1]) == ["v", vv]:
                 rhs = sub[2]
-                old = any(x == ["v", vv] for x in ir.walk(fn, rhs))
+                old = any(x == ["v", vv] for x in ir.walk(fn, rhs, follow_refs=True))
             elif sub[0] == "o=" and sub[1] in ("&=", "&") and ir.strip_casts(sub[2]) == ["v", vv]:
                 rhs, old = sub[3], True
             else:
